@@ -9,7 +9,7 @@ from funsor.interpretations import eager, lazy, normalize, reflect
 from funsor.tensor import Tensor
 from funsor.terms import Funsor, Number
 
-from . import compare, fbuild
+from . import compare, fbuild, vals
 
 
 def _has_getslice(t):
@@ -691,6 +691,55 @@ def c10(rec):
             m = MarkovProduct(plus, times, trans, time, step)
         return funsor.reinterpret(m)
     judge("MarkovProduct_lazy", lazy_mp)
+    # the time variable and the step variables of a lazy MarkovProduct are BOUND: a value whose
+    # own free input is called "time" (or like a step variable), substituted for the batch input,
+    # must not be captured (found by a seeded fault that did not record `time` as bound).
+    # Expected values: TLC's table re-indexed (batch := idx[t]).
+    if rec["sig"].get("batch") and not rec.get("param"):
+        for free_name in ("time",) + tuple(step)[:1]:
+            try:
+                from collections import OrderedDict as _OD
+                n_free = T if free_name == "time" else 2     # a capture then indexes the bound variable's own range
+                idx_data = np.array([(k + 1) % 2 for k in range(n_free)])
+                idx = Tensor(idx_data, _OD([(free_name, Bint[n_free])]), 2)
+                with lazy:
+                    m = MarkovProduct(plus, times, trans, time, step)
+                    r = m(b=idx)
+                e = funsor.reinterpret(r)
+                names = [n for n, _ in exp["ins"]]
+                if "b" not in names:
+                    continue
+                if free_name in names:
+                    continue        # the value's free input would collide with a free input of m
+                tab = exp["tab"]
+                sizes = [d["dt"] for _, d in exp["ins"]]
+                pos_b = names.index("b")
+                new_names = [free_name if n == "b" else n for n in names]
+                import itertools as _it
+                want = {}
+                for flat, ix in enumerate(_it.product(*[range(s_) for s_ in sizes])):
+                    want[ix] = tab[flat]
+                bad = None
+                if not isinstance(e, (Tensor, Number)):
+                    out.append(_verdict("C10", "declined_lazy", "markov_lazy_subs:" + type(e).__name__, sig=sig))
+                    continue
+                if set(e.inputs) != set(new_names):
+                    bad = ("markov_lazy_subs_inputs", {"got": sorted(e.inputs), "want": sorted(new_names), "value_input": free_name})
+                else:
+                    ea = e.align(tuple(new_names))
+                    data = np.asarray(ea.data, dtype=float)
+                    for ix in _it.product(*[range(n_free if k == pos_b else s_) for k, s_ in enumerate(sizes)]):
+                        src = list(ix)
+                        src[pos_b] = int(idx_data[ix[pos_b]])
+                        w = vals.arr_to_np(want[tuple(src)])
+                        if not vals.close(data[ix], w):
+                            bad = ("markov_lazy_subs_value", {"at": dict(zip(new_names, ix)), "got": float(data[ix]),
+                                                              "want": float(w), "value_input": free_name})
+                            break
+                v = _verdict("C10", "mismatch", bad[0], bad[1], sig=sig) if bad else _verdict("C10", "agree", sig=sig)
+                out.append(v)
+            except Exception as ex:  # noqa
+                out.append(_verdict("C10", "declined_error", "markov_lazy_subs:" + type(ex).__name__, str(ex)[:100], sig=sig))
     # C->S: the scan run under lazy emits a term (slices, cats, contractions, renamings)
     if rec.get("param"):
         # the expected table ranges over sample points of the real parameter: it is not a tensor
